@@ -11,6 +11,7 @@ import (
 	"deps.dev/util/resolve/maven"
 	"deps.dev/util/resolve/npm"
 	"deps.dev/util/resolve/pypi"
+	"deps.dev/util/resolve/version"
 	"deps.dev/util/semver/verifhook"
 	"verif/sim/gen"
 	"verif/sim/kernel"
@@ -82,6 +83,24 @@ func init() {
 			s.BlockEnd()
 		}
 	}
+	verifhook.Spawn = func() int {
+		if s := kernel.Current; s != nil {
+			return s.Spawn()
+		}
+		return -1
+	}
+	verifhook.Enter = func(h int) {
+		if s := kernel.Current; s != nil {
+			s.Enter(h)
+		}
+	}
+	verifhook.Exit = func(h int, pv any) {
+		if s := kernel.Current; s != nil {
+			s.Exit(h, pv)
+		} else if pv != nil {
+			panic(pv)
+		}
+	}
 	verifhook.Held = func(delta int) {
 		if s := kernel.Current; s != nil {
 			s.Held(delta)
@@ -104,6 +123,23 @@ type c05Op struct {
 	panicV any
 	g      *resolve.Graph // kept to re-read the result after everything else ran
 	err    error
+	raw    string // Graph.String() as returned
+	canon  string // Graph.String() after Graph.Canon(), plus Canon's error
+}
+
+// canonText canonicalises g in place, as a caller comparing graphs would, and
+// returns its text before and after (with Canon's error, if any).
+func canonText(g *resolve.Graph) (raw, canon string) {
+	if g == nil {
+		return "", ""
+	}
+	raw = g.String()
+	err := g.Canon()
+	canon = g.String()
+	if err != nil {
+		canon += "\nCanon error: " + err.Error()
+	}
+	return raw, canon
 }
 
 type c05Scenario struct {
@@ -251,6 +287,28 @@ func RunC05(t *kernel.Tape, o Opts) *Result {
 	if sys == resolve.PyPI && t.Bool(1, 2) {
 		squeeze = []int{1, 2, 3, 8}[t.Choose(4)]
 	}
+	// Staged build: the live client does not receive the universe in one go.
+	// A first part is added (some versions in a preliminary form: another
+	// attribute set, one requirement fewer), a few resolutions run on the
+	// client as it is then, and only afterwards the rest is added and the
+	// preliminary versions are added again in their final form. From then on
+	// the client holds exactly the universe (it reports what was last added),
+	// and every resolver used in the run proper is created after that point.
+	type stagedAdd struct {
+		ref    uni.Ref
+		prelim bool
+	}
+	var stage1 []stagedAdd
+	var interim []uni.Ref
+	if t.Bool(1, 5) {
+		k := t.Range(1, len(order))
+		for _, r := range order[:k] {
+			stage1 = append(stage1, stagedAdd{r, t.Bool(1, 3)})
+		}
+		for i, n := 0, t.Range(1, 2); i < n; i++ {
+			interim = append(interim, order[t.Choose(k)])
+		}
+	}
 	var preludeSys resolve.System
 	prelude := t.Bool(1, 6)
 	var preludeSpec *uni.Spec
@@ -367,6 +425,8 @@ func RunC05(t *kernel.Tape, o Opts) *Result {
 	for _, op := range prefixOps {
 		allRoots[op.Root] = true
 	}
+	refRaw := map[uni.Ref]string{}
+	refCanon := map[uni.Ref]string{}
 	computeRefs := func() (map[uni.Ref]string, map[uni.Ref]string, bool) {
 		m := map[uni.Ref]string{}
 		d := map[uni.Ref]string{}
@@ -386,6 +446,9 @@ func RunC05(t *kernel.Tape, o Opts) *Result {
 			}
 			m[r] = uni.Signature(g, err)
 			d[r] = uni.Describe(g, err)
+			if _, ok := refRaw[r]; !ok {
+				refRaw[r], refCanon[r] = canonText(g)
+			}
 		}
 		return m, d, true
 	}
@@ -412,17 +475,77 @@ func RunC05(t *kernel.Tape, o Opts) *Result {
 	}
 
 	// Live objects.
-	live := spec.BuildClient(order)
-	untouched := spec.BuildClient(order)
+	var live, untouched *resolve.LocalClient
+	if stage1 == nil {
+		live = spec.BuildClient(order)
+		untouched = spec.BuildClient(order)
+	} else {
+		add := func(c *resolve.LocalClient, r uni.Ref, prelim bool) {
+			v := spec.Pkgs[r.P].Vers[r.V]
+			attrs, reqs := v.Attrs, v.Reqs
+			if prelim {
+				hasBlocked := false
+				for _, a := range attrs {
+					hasBlocked = hasBlocked || a.K == int(version.Blocked)
+				}
+				if hasBlocked {
+					attrs = nil
+				} else {
+					attrs = append(append([]uni.KV(nil), attrs...), uni.KV{K: int(version.Blocked)})
+				}
+				if len(reqs) > 0 {
+					reqs = reqs[:len(reqs)-1]
+				}
+			}
+			c.AddVersion(resolve.Version{VersionKey: spec.VK(r.P, r.V), AttrSet: uni.MkAttr(attrs)}, spec.MkReqs(reqs))
+		}
+		build := func(withResolves bool) (*resolve.LocalClient, bool) {
+			c := resolve.NewLocalClient()
+			for _, a := range stage1 {
+				add(c, a.ref, a.prelim)
+			}
+			if withResolves {
+				for _, r := range interim {
+					bc := &boundedClient{inner: c, max: 3000}
+					resolveOnce(newResolver(sys, bc), ctx, spec.VK(r.P, r.V))
+					if bc.over {
+						return nil, false
+					}
+				}
+			}
+			for _, a := range stage1 {
+				if a.prelim {
+					add(c, a.ref, false)
+				}
+			}
+			for _, r := range order[len(stage1):] {
+				add(c, r, false)
+			}
+			return c, true
+		}
+		var okb bool
+		if live, okb = build(true); !okb {
+			res.Status = "budget"
+			res.Config = sname + "/staged-budget"
+			return res
+		}
+		untouched, _ = build(false)
+		fault(res, "staged_build", 1)
+	}
 	if d := spec.Dump(live); d != golden {
-		violate(res, "insertion-order", "insertion-order:"+sname, 0, "client built in permuted insertion order reports differently before any Resolve: %s", uni.FirstDiff(golden, d))
+		kind := "insertion-order"
+		what := "client built in permuted insertion order"
+		if stage1 != nil {
+			kind = "staged-build"
+			what = "client built in two stages (preliminary forms re-added in final form, resolutions in between)"
+		}
+		violate(res, kind, kind+":"+sname, 0, "%s reports differently before any Resolve of the run proper: %s", what, uni.FirstDiff(golden, d))
 	}
 	if permuted {
 		fault(res, "insertion_permutation", 1)
 	}
 	ntasks := len(programs)
-	nall := ntasks + len(fProgs)
-	sc := &simClient{inner: live, calls: make([]int, nall), cancels: make([]context.CancelFunc, nall), maxCall: 5000}
+	sc := &simClient{inner: live, calls: make([]int, kernel.MaxTasks), cancels: make([]context.CancelFunc, kernel.MaxTasks), maxCall: 5000}
 	var fLive *resolve.LocalClient
 	var fClient *simClient
 	var fGolden string
@@ -479,8 +602,8 @@ func RunC05(t *kernel.Tape, o Opts) *Result {
 	}
 
 	checkClient := func(step int, when string) {
-		if !reflect.DeepEqual(live, untouched) {
-			violate(res, "client-mutated", "client-mutated:"+sname+":deep", step, "%s: the LocalClient's internal state differs from an identically built, untouched twin (reflect.DeepEqual)", when)
+		if f := clientDataDiff(live, untouched); f != "" {
+			violate(res, "client-mutated", "client-mutated:"+sname+":deep", step, "%s: the LocalClient's stored data (field %s) differs from an identically built, untouched twin (reflect.DeepEqual)", when, f)
 		}
 		if d := spec.Dump(live); d != golden {
 			fd := uni.FirstDiff(golden, d)
@@ -502,6 +625,13 @@ func RunC05(t *kernel.Tape, o Opts) *Result {
 		}
 		if op.sig != refs[op.Root] {
 			violate(res, "result-mismatch", "result-mismatch:"+sname, step, "%s Resolve(%s %s) differs from the serial result on a fresh client.\n--- fresh:\n%s\n--- got:\n%s", who, root.Name, root.Version, refDesc[op.Root], op.desc)
+		} else if op.raw != refRaw[op.Root] {
+			probe(res, "same_graph_other_node_order", 1)
+		} else if probe(res, "canon_compared", 1); op.canon != refCanon[op.Root] {
+			// "the same graph after canonicalisation": Canon was given
+			// literally the same graph as in the reference run and produced
+			// something else, so it depends on more than its input.
+			violate(res, "canon-unstable", "canon-unstable:"+sname, step, "%s Resolve(%s %s) returned literally the graph of the serial reference run, but Graph.Canon turned it into something else.\n--- reference, canonicalised:\n%s\n--- here, canonicalised:\n%s", who, root.Name, root.Version, refCanon[op.Root], op.canon)
 		}
 		if op.nodes >= 2 {
 			probe(res, "graphs_ge2_nodes", 1)
@@ -521,6 +651,7 @@ func RunC05(t *kernel.Tape, o Opts) *Result {
 			op.g, op.err = g, err
 			op.sig = uni.Signature(g, err)
 			op.desc = uni.Describe(g, err)
+			op.raw, op.canon = canonText(g)
 			if g != nil {
 				op.nodes = len(g.Nodes)
 				op.gerr = g.Error != ""
@@ -629,7 +760,8 @@ func RunC05(t *kernel.Tape, o Opts) *Result {
 	if !concurrent {
 		fault(res, "history_ops", len(programs[0]))
 	}
-	for i := 0; i < nall; i++ {
+	probe(res, "goroutines_of_code_under_test", s.Spawned)
+	for i := 0; i < s.N(); i++ {
 		if pv := s.TaskPanic(i); pv != nil {
 			violate(res, "panic", "panic:harness-task", 0, "task %d panicked outside an operation: %v", i, pv)
 		}
@@ -770,6 +902,28 @@ func RunC05(t *kernel.Tape, o Opts) *Result {
 		res.Scenario = scn
 	}
 	return res
+}
+
+// clientDataDiff compares the data a LocalClient stores - the version lists
+// and the requirement lists, down to the maps inside attribute sets - with
+// those of a twin, and names the first field that differs. Only these two
+// fields are compared: anything else a client may hold (a lock, a memo, a
+// lazily built index) is allowed to change while it is being read; whether
+// such state changes an answer is what the observational dump decides.
+func clientDataDiff(a, b *resolve.LocalClient) string {
+	va, vb := reflect.ValueOf(a).Elem(), reflect.ValueOf(b).Elem()
+	for _, name := range []string{"PackageVersions", "imports"} {
+		fa, fb := va.FieldByName(name), vb.FieldByName(name)
+		if !fa.IsValid() || !fb.IsValid() {
+			continue // the field no longer exists under that name
+		}
+		fa = reflect.NewAt(fa.Type(), fa.Addr().UnsafePointer()).Elem()
+		fb = reflect.NewAt(fb.Type(), fb.Addr().UnsafePointer()).Elem()
+		if !reflect.DeepEqual(fa.Interface(), fb.Interface()) {
+			return name
+		}
+	}
+	return ""
 }
 
 func cloneSpec(s *uni.Spec) *uni.Spec {
